@@ -18,15 +18,20 @@ import re
 import sys
 
 import common
+import c09pg
+import c09ops
 from common import REPO, cxx_build, drv, gen_write, log, sh
 
 SIZES = [8, 16, 32, 64, 128, 200]          # sizeof(Item) -> items_per_page 32,16,8,4,2,1
 IPP = {8: 32, 16: 16, 32: 8, 64: 4, 128: 2, 200: 1}
+PG_BAD = []                                 # families whose page-level replay broke (drives the page-window search)
+NQ = [8, 3]                                 # n_queue, phi: set from the generated constants in run()
 F3_KEY = "bounded-abort-vs-new-pop-ticket"
 ALLOC_KEY = "page-alloc-failure-then-pop-dereferences-invalid-page"
 FULL_KEY = "bounded-full-after-failed-push"
 SETCAP_KEY = "set-capacity-negative-installs-zero"
 SKIP_KEY = "bounded-pop-skips-invalid-ticket-without-notify-deadlock"
+SETCAP_WAKE_KEY = "set-capacity-raise-does-not-wake-blocked-push"
 
 
 # --------------------------------------------------------------------------------------------------
@@ -72,15 +77,30 @@ def parse_runs(out):
         if not w:
             continue
         if w[0] == "run":
-            cur = {"idx": int(w[1]), "eff": {}, "log": [], "res": {}, "mon": "", "sched": [], "drain": None, "fin": None, "dead": None}
+            cur = {"idx": int(w[1]), "eff": {}, "log": [], "plog": [], "res": {}, "mon": "", "sched": [], "drain": None, "fin": None, "dead": None,
+                   "pgfin": None, "pglive": []}
         elif cur is None:
             continue
         elif w[0] == "eff":
             cur["eff"][int(w[1])] = w[2:]
         elif w[0] == "e":
             cur["log"].append(("e", int(w[1]), w[2], w[3], int(w[4]), int(w[5]), int(w[6])))
+            cur["plog"].append(cur["log"][-1])
         elif w[0] == "n":
             cur["log"].append(("n", int(w[1]), w[2], int(w[3]), int(w[4])))
+            cur["plog"].append(cur["log"][-1])
+        elif w[0] == "p":
+            cur["plog"].append(("p", int(w[1]), w[2], w[3], int(w[4]), int(w[5])))
+        elif w[0] == "pgfin":
+            if cur["pgfin"] is None:
+                cur["pgfin"] = {}
+            cur["pgfin"][int(w[1])] = (int(w[2]), int(w[3]), [int(x) for x in w[5:]])
+        elif w[0] == "pglive":
+            cur["pglive"] = [int(x) for x in w[1:]]
+        elif w[0] == "pgcopy":
+            cur.setdefault("pgcopy", {})[int(w[1])] = (int(w[2]), int(w[3]))
+        elif w[0] == "pgclear":
+            cur["pgclear"] = [int(x) for x in w[1:]]
         elif w[0] == "res":
             cur["res"][int(w[1])] = w[2:]
         elif w[0] == "drain":
@@ -113,8 +133,11 @@ def run_harness(exe, sc, mode, arg, n=1, timeout=600):
         if rc not in (0, 1, 3):
             note = "harness crashed rc=%d: %s" % (rc, (err or out)[-400:].replace("\n", " | "))
             # whatever the crashing run printed is lost; record it as a run of its own
-            runs.append({"idx": (rs[-1]["idx"] + 1) if rs else start, "eff": {}, "log": [], "res": {}, "mon": "CRASH " + note, "sched": [],
-                         "drain": None, "fin": None, "dead": None, "crash": True})
+            cm = re.search(r"CRASH signal=(\d+) tid=(\d+)\nsched([ \d]*)", out)
+            if cm:
+                note = "the code under test faulted (signal %s in thread %s) — with the quarantining page allocator: an access to a freed page, or a wild page pointer" % (cm.group(1), cm.group(2))
+            runs.append({"idx": (rs[-1]["idx"] + 1) if rs else start, "eff": {}, "log": [], "plog": [], "res": {}, "mon": "CRASH " + note,
+                         "sched": cm.group(3).split() if cm else [], "drain": None, "fin": None, "dead": None, "crash": True, "pgfin": None, "pglive": []})
         if mode == "rand" and rc in (3,) or (mode == "rand" and rc not in (0, 1)):
             nxt = runs[-1]["idx"] + 1
             if nxt < n and nxt > start:
@@ -624,6 +647,8 @@ U_CORPUS = [
     # page boundaries: 2 full rounds of every lane and more (items_per_page 1 and 2 cross pages, recycle them)
     {"kind": "u", "cap": "inf", "progs": [["push:%d:n" % i for i in range(1, 19)], ["trypop"] * 9, ["trypop"] * 9], "sizes": [128, 200]},
     {"kind": "u", "cap": "inf", "progs": [["push:%d:%s" % (i, "c" if i in (3, 9) else "n") for i in range(1, 19)] + ["trypop"] * 18], "sizes": [64, 128, 200]},
+    # two producers share the pages of every lane (consecutive rounds of a lane belong to different threads), a consumer retires them
+    {"kind": "u", "cap": "inf", "progs": [["push:%d:n" % i for i in range(1, 10)], ["push:%d:n" % i for i in range(11, 20)], ["trypop"] * 12], "sizes": [128, 32]},
 ]
 B_CORPUS = [
     {"kind": "b", "cap": "1", "progs": [["bpush:1:n", "bpush:2:n"], ["bpop", "bpop"]]},
@@ -670,6 +695,18 @@ def analyse(ck, exes, size, sc, runs, tally, family):
     for r, d in zip(ok_runs, res):
         if d:
             tally["corr"].append((size, sc, r, d))
+    for r in ok_runs:
+        d, info = c09pg.replay_one(r, NQ[0], NQ[1], ipp, len(sc["progs"]))
+        tally.setdefault("pg", {"n": 0, "events": 0, "tolerated": 0, "quiescent": 0, "skipped": 0, "copyclear": 0, "bad": []})
+        pg = tally["pg"]
+        pg["n"] += 1
+        pg["events"] += info["events"]
+        pg["tolerated"] += info["tolerated_loads"]
+        pg["quiescent"] += 1 if info.get("quiescent_compared") else 0
+        pg["skipped"] += 1 if info.get("skipped") else 0
+        pg["copyclear"] += 1 if info.get("copy_clear_compared") else 0
+        if d:
+            pg["bad"].append((size, sc, r, d))
     for r in runs:
         v = monitors(sc, r)
         hz = (not r.get("crash")) and undo_hazard(r)
@@ -729,6 +766,17 @@ def report(ck, tally, name):
     known = [m for m in mon if key_of(m[1], m[2], m[3], m[4]) in (F3_KEY, SKIP_KEY)]       # runs that show a known shape
     other = [m for m in mon if key_of(m[1], m[2], m[3], m[4]) not in (F3_KEY, SKIP_KEY)]
     corr_other = [c for c in corr if not undo_hazard(c[2])]
+    pg = tally.get("pg")
+    if pg is not None:
+        b = pg["bad"]
+        ck.oblige("corr:%s page-level access log (head_page/tail_page/page_mutex/mask/alloc/free/construct/move-out) replays on the lane model Pg; "
+                  "chains and live pages agree at quiescence, copy construction + clear() of the end state = copyLane / clearPages "
+                  "(%d runs, %d events, %d quiescent snapshots, %d copy/clear comparisons, %d tolerated loads, %d skipped: tickets not unique)"
+                  % (name, pg["n"], pg["events"], pg["quiescent"], pg["copyclear"], pg["tolerated"], pg["skipped"]), "correspondence", not b,
+                  "" if not b else "%s | sizeof(T)=%d scenario %s cap %s | schedule %s" % (b[0][3], b[0][0], b[0][1]["progs"], b[0][1]["cap"], " ".join(b[0][2]["sched"][:400])))
+        ck.extra.setdefault("page_replay", {})[name] = {k: pg[k] for k in ("n", "events", "tolerated", "quiescent", "copyclear", "skipped")}
+        if b:
+            PG_BAD.append(name)
     ck.oblige("corr:%s ticket-level access log replays on TicketQ (accesses, values, results)" % name, "correspondence", not corr_other,
               "" if not corr_other else "%s | sizeof(T)=%d scenario %s cap %s | schedule %s" % (
                   corr_other[0][3], corr_other[0][0], corr_other[0][1]["progs"], corr_other[0][1]["cap"], " ".join(corr_other[0][2]["sched"][:400])))
@@ -903,6 +951,33 @@ def skip_shape_demo(ck, exes):
         ck.obligations[-1]["explained"] = True
 
 
+# blocked push / pop complete as soon as space / items appear: proved for a CONSTANT capacity and for abort() on the wait / notify model of C02's
+# bounded-queue client (C02: bq_blocked_ops_complete, bq_abort_wakes_all; hypothesis `clean` = the C09 findings excluded).  Raising the capacity is
+# the one way space can appear that is not a pop: as coded set_capacity() is a plain store without a notification and the sleeper's target was
+# computed from the old capacity, so the blocked push stays blocked (reproduced on the real library with real threads; known finding).
+SETCAP_WAKE_SCENARIO = {"kind": "b", "cap": "1", "progs": [["bpush:1:n", "bpush:2:n"], ["setcap:5"]], "drain": False}
+SETCAP_WAKE_SCRIPT = "0*,1*,0*"
+
+
+def setcap_wake_shape(ck, exes):
+    sc = SETCAP_WAKE_SCENARIO
+    runs, _, note = run_harness(exes[8], sc, "script", SETCAP_WAKE_SCRIPT, 1)
+    r = runs[0] if runs else None
+    v = monitors(sc, r) if r is not None else None
+    bad = bool(v) and v[0] in ("lost-wakeup", "stuck")
+    ck.extra["set_capacity_raise_vs_blocked_push"] = {"results": r["res"] if r else None, "parked": r["dead"] if r else None, "monitor": list(v) if v else None,
+                                                      "script": SETCAP_WAKE_SCRIPT}
+    if bad:
+        ck.counterexample(SETCAP_WAKE_KEY, "concurrent_bounded_queue capacity 1: push(1); push(2) blocks (ticket 1, target = ticket - capacity = 0); another thread calls "
+                          "set_capacity(5) and returns: nothing wakes the sleeper and its target is stale, so the push stays blocked although the queue now has "
+                          "room for 4 more items (%s)" % v[1][:300],
+                          {"engine": "E-SHIM", "sizeof_T": 8, "scenario": sc, "script": SETCAP_WAKE_SCRIPT, "schedule": r["sched"], "verdict": list(v), "results": r["res"]})
+    ck.oblige("monitor:a push blocked on the old capacity completes when set_capacity raises the capacity — known finding %s" % SETCAP_WAKE_KEY, "correspondence",
+              not bad, v[1][:300] if v else "")
+    if bad:
+        ck.obligations[-1]["explained"] = True
+
+
 def setcap_shape(ck, exes, consts):
     big = consts["infinite_capacity"] >= (1 << 31)
     sc = SETCAP_SCENARIO
@@ -921,8 +996,41 @@ def setcap_shape(ck, exes, consts):
         ck.obligations[-1]["explained"] = True
 
 
+# layer 3 for the page life cycle: when the page-level correspondence breaks, look for a schedule on which the real code faults or breaks a
+# monitor.  Small scenarios around the windows the lane theorems are about: the pop finalizer retiring the last page of a lane while a push
+# links the next one (items_per_page 1 and 2), two pops on consecutive rounds of one lane; bounded-preemption DFS.
+PAGE_WINDOWS = [
+    (200, {"kind": "u", "cap": "inf", "progs": [["push:%d:n" % i for i in range(1, 10)], ["trypop"]]}, 2),
+    (200, {"kind": "u", "cap": "inf", "progs": [["push:%d:n" % i for i in range(1, 10)], ["trypop"] * 9, ["trypop"]]}, 1),
+    (128, {"kind": "u", "cap": "inf", "progs": [["push:%d:n" % i for i in range(1, 18)], ["trypop"] * 9, ["trypop"] * 2]}, 1),
+]
+
+
+def page_window_search(ck, exes):
+    found = None
+    for size, sc, bound in PAGE_WINDOWS:
+        runs, n, note = run_harness(exes[size], sc, "dfs", bound, 30000 if ck.tier == "quick" else 300000, timeout=1500)
+        ck.evaluations += n or 0
+        for r in runs[-1:]:
+            v = ("crash", r["mon"], "crash") if r.get("crash") else monitors(sc, r)
+            if v is None and r["mon"].startswith("VIOLATION"):
+                v = ("harness-monitor", r["mon"], "harness-monitor")
+            if v:
+                found = (size, sc, r, v)
+                break
+        if found:
+            break
+    ck.extra["page_window_search"] = {"found": bool(found)}
+    if found:
+        size, sc, r, v = found
+        ck.counterexample("page-window:" + v[2], "%s: %s (sizeof(T)=%d, programs %s; found by bounded-preemption DFS after the page-level replay broke)" % (
+            v[0], v[1][:400], size, sc["progs"]),
+            {"engine": "E-SHIM", "sizeof_T": size, "scenario": sc, "schedule": r.get("sched", []), "verdict": list(v), "results": r.get("res")})
+
+
 def run(ck):
     quick = ck.tier == "quick"
+    del PG_BAD[:]
     ck.rule = ("E-SHIM: hand-written corpus (contention, page-boundary, abort windows) + seeded random 2-4 thread programs over "
                "push/try_pop (unbounded) and push/try_push/pop/try_pop/abort/set_capacity (bounded), element sizes of all six items_per_page classes, "
                "constructor failures at random positions, page-allocation failures (push-only programs), each under seeded random schedules plus "
@@ -938,16 +1046,25 @@ def run(ck):
         "allocation-failure scenarios are push-only: outside these the three known failures (reported separately, with theorems abort_conserves_fails / "
         "alloc_failure_crashes and dedicated replays) would reappear under other seeds",
         "try_push_full_truthful / bounded_capacity are about ticket occupancy (tail - head), which counts invalidated tickets until a pop attempt skips them",
-        "copy/assignment/iterators/clear/unsafe_size of the containers are not covered", "weak CAS never fails spuriously under the shim"]
+        "page life cycle: proved on the lane model Pg (one micro_queue, N threads, all schedules, one step per atomic access; the plain next accesses, construction, "
+        "move-out, allocation and deallocation are steps of their own) under `wf` (rounds unique: what TicketQ guarantees while ok) and while no page allocation failed; "
+        "tied by replaying the page-level access log of every E-SHIM run on Pg and by comparing page chains / live pages at quiescence",
+        "copy / move / assignment / swap / clear / size / empty / iteration / set_capacity: proved at ticket level (Seq), the page-level side is `Pg.copyLane` / `Pg.clearPages` "
+        "(executable, compared through the page count) and the differential against the real containers; negative size() arises only concurrently",
+        "weak CAS never fails spuriously under the shim"]
     ck.trusted += ["harness/shim (atomic shim + baton scheduler)", "harness/c09/q.cpp (address naming, element life-cycle instrumentation)",
-                   "checks/c09.py: history extraction and the FIFO linearizability checker", "trace replay is a sampled correspondence"]
+                   "checks/c09.py: history extraction and the FIFO linearizability checker", "trace replay is a sampled correspondence",
+                   "checks/c09pg.py (lane operations derived from the tickets, page ids -> page numbers)", "checks/c09ops.py + harness/c09/seq.cpp (operation generator, allocator ledger)"]
     consts = gen(ck)
+    NQ[0], NQ[1] = consts["n_queue"], consts["phi"]
     ck.lean_stage()
     pure_stage(ck, consts)
+    c09ops.stage(ck)
     exes = build_all()
     known_shapes(ck, exes)
     setcap_shape(ck, exes, consts)
     skip_shape_demo(ck, exes)
+    setcap_wake_shape(ck, exes)
     abort_push_windows(ck, exes)
     rng = ck.rng
     nsc, nrand = (14, 10) if quick else (120, 40)
@@ -987,6 +1104,8 @@ def run(ck):
                                       {"engine": "E-SHIM", "sizeof_T": size, "scenario": sc, "schedule": rr["sched"], "verdict": list(vv), "results": rr["res"]})
                     break
     ck.extra["schedules"] = sched_stats
+    if PG_BAD and not any(c.get("key", "").startswith(("crash", "page-window")) for c in ck.counterexamples):
+        page_window_search(ck, exes)
 
 
 def replay(ck, obj):
@@ -995,6 +1114,8 @@ def replay(ck, obj):
         print("replay: re-run `python3 checks/check.py C09` to re-check them")
         return 1
     r = obj["replay"]
+    if r.get("engine") == "E-PURE-SEQ":
+        return c09ops.replay(ck, r)
     if r.get("engine") == "E-PURE":
         exe = cxx_build("C09", "pure", ["harness/c09/pure.cpp", "harness/c09/stubs.cpp"], flags=["-O1", "-g", "-fno-access-control"])
         rc, out, err = sh([exe, str(r["sizeof_T"])], input="\n".join(r["ops"]) + "\n", timeout=30)
